@@ -24,6 +24,7 @@ type Obj struct {
 	Typ   types.Type // type of the object's content (array elem type for arrays/slices' backing)
 	Array bool
 	Elem  Sort // element sort for array objects
+	Sym   bool // created as an unconstrained symbolic object (parameter, callee result), not by an allocation of the verified code
 }
 
 type SliceV struct {
@@ -73,6 +74,7 @@ type State struct {
 	abstract bool     // path passed through an abstracted construct
 	assumed  []string // names of trusted externals used on this path
 	dead     bool
+	written  map[cellKey]bool
 }
 
 func (s *State) clone() *State {
@@ -85,6 +87,12 @@ func (s *State) clone() *State {
 	}
 	n.pc = append([]Term(nil), s.pc...)
 	n.assumed = append([]string(nil), s.assumed...)
+	if s.written != nil {
+		n.written = make(map[cellKey]bool, len(s.written))
+		for k := range s.written {
+			n.written[k] = true
+		}
+	}
 	return n
 }
 
